@@ -34,7 +34,7 @@ fn node_mut<'a>(t: &'a mut Tree, ix: &mut usize) -> Option<&'a mut Tree> {
 pub const EDITS: &[&str] = &[
     "info-other", "info-fresh", "info-single", "swap-actions", "dup-action", "drop-action", "drop-all", "owner",
     "rename-action", "w-zero", "w-neg", "w-nan", "w-inf", "w-ninf", "w-double", "ci-share", "ci-none", "pay-nan", "pay-inf",
-    "wrap-single-chance", "wrap-single-action",
+    "wrap-single-chance", "wrap-single-action", "dup-action-apart", "dup-action-apart-all", "dup-action-all",
 ];
 
 /// apply one edit at one node; None when the edit does not apply to that kind of node
@@ -60,8 +60,39 @@ pub fn apply(base: &Tree, node: usize, edit: &str, labels: &[Vec<String>; 2], cl
         };
         return Some(t);
     }
+    if edit == "dup-action-apart-all" || edit == "dup-action-all" {
+        // the same repeated action name at EVERY node of the infoset (the only rule broken is uniqueness): the first and
+        // the last action (not adjacent when there are three or more), or the first two
+        let (pl0, info0, len0) = match n {
+            Tree::P { pl, info, kids } => (*pl, info.clone(), kids.len()),
+            _ => return None,
+        };
+        if len0 < (if edit == "dup-action-all" { 2 } else { 3 }) {
+            return None;
+        }
+        fn all(t: &mut Tree, pl0: u8, info0: &str, apart: bool) {
+            match t {
+                Tree::T { .. } => {}
+                Tree::C { kids, .. } => kids.iter_mut().for_each(|k| all(&mut k.t, pl0, info0, apart)),
+                Tree::P { pl, info, kids } => {
+                    if *pl == pl0 && info == info0 && kids.len() >= 2 {
+                        let a = kids[0].a.clone();
+                        let at = if apart { kids.len() - 1 } else { 1 };
+                        kids[at].a = a;
+                    }
+                    kids.iter_mut().for_each(|k| all(&mut k.t, pl0, info0, apart));
+                }
+            }
+        }
+        all(&mut t, pl0, &info0, edit == "dup-action-apart-all");
+        return Some(t);
+    }
     match n {
         Tree::P { pl, info, kids } => match edit {
+            "dup-action-apart" if kids.len() >= 3 => {
+                let a = kids[0].a.clone();
+                kids.last_mut()?.a = a;
+            }
             "info-other" => {
                 let cands = &labels[*pl as usize - 1];
                 let other = cands.iter().find(|l| *l != info)?;
